@@ -1,0 +1,9 @@
+//go:build verif
+
+package builder
+
+// VerifSliceBits exposes the builder-side hash bit extraction (hashBits.Slice) to the
+// verification harness in /verif. It is compiled only with the "verif" build tag.
+func VerifSliceBits(hash []byte, offset, width int) (int, error) {
+	return hashBits(hash).Slice(offset, width)
+}
